@@ -1534,7 +1534,10 @@ func runC13(res *hx.Result, rng *hx.Rng, tier string, outdir string) {
 		"executed label by label through harness-owned streams; non-trivial = at least 2 emissions with a change of the " +
 		"subscriber set between them; distinct by sha256 of the label sequence; client side: sequences of subscribe / cancel / " +
 		"emit / one receive attempt of one subscriber by up to 6 subscribers of 3 signals on one client whose readers read only " +
-		"when the sequence says so; non-trivial = at least 2 subscribers and 2 emissions"
+		"when the sequence says so; non-trivial = at least 2 subscribers and 2 emissions; emissions placed inside the mailbox " +
+		"goroutine's processing of a registerEvent / unregisterEvent (scripts, one request in three of the sequential schedules, up " +
+		"to two per interleaved schedule); raw registerEvent / unregisterEvent sequences with colliding ids, also next to " +
+		"connections whose writes fail (EPIPE, ECONNRESET, io.EOF), that were closed, that fail once or are slow"
 	nSeq, nInter := 200, 150
 	if tier == "thorough" {
 		nSeq, nInter = 3000, 5000
@@ -1633,6 +1636,9 @@ func runC13(res *hx.Result, rng *hx.Rng, tier string, outdir string) {
 		}
 	}
 	lap("scripts in other modes")
+	if tier == "thorough" {
+		c13midLeft = 600
+	}
 	for i := 0; i < nSeq; i++ {
 		c13mode = (i / 2) % 4
 		if i%2 == 0 {
@@ -1642,11 +1648,15 @@ func runC13(res *hx.Result, rng *hx.Rng, tier string, outdir string) {
 		}
 	}
 	lap("sequential")
+	if tier == "thorough" {
+		c13midLeft = 600
+	}
 	for i := 0; i < nInter; i++ {
 		c13mode = i % 4
 		finish(c13interleaved(rng, 15+rng.Intn(30)), "interleaved")
 	}
 	c13mode = 0
+	c13midLeft = 0 // the exhaustive sequences do not use it
 	lap("interleaved")
 	if tier == "thorough" {
 		// every sequence of at most 4 operations over 2 connections x 2 signals (one through the generated proxy)
